@@ -766,6 +766,10 @@ fn main() {
         let c = if v["case"].is_object() { v["case"].clone() } else { v.clone() };
         let line = c["line"].as_str().or_else(|| c["case"].as_str()).unwrap_or("").to_string();
         let extra = c["extra"].as_u64().unwrap_or(2) as usize;
+        if line.splitn(3, ';').count() != 3 {
+            println!("replay file holds no case line (a broken proof / tie without a failing input): nothing to re-run");
+            std::process::exit(1);
+        }
         let case = decode(&line);
         let mut failed = false;
         for backend in [Backend::Local, Backend::ObjectStore] {
@@ -791,6 +795,22 @@ fn main() {
     // 0. corpus
     for (name, case) in corpus() {
         ctx.check(&name, &case, 2);
+    }
+
+    // 0b. witness files (corpus/C14/*.json): the formerly stranding positions, by name
+    if let Ok(dir) = std::fs::read_dir("corpus/C14") {
+        let mut files: Vec<_> = dir.filter_map(|e| e.ok()).map(|e| e.path()).filter(|p| p.extension().map(|x| x == "json").unwrap_or(false)).collect();
+        files.sort();
+        let mut seen = std::collections::HashSet::new();
+        for f in files {
+            let Ok(txt) = std::fs::read_to_string(&f) else { continue };
+            let Ok(v) = serde_json::from_str::<serde_json::Value>(&txt) else { continue };
+            let Some(line) = v["case"]["line"].as_str() else { continue };
+            if line.splitn(3, ';').count() != 3 || !seen.insert(line.to_string()) {
+                continue;
+            }
+            ctx.check("corpus.file", &decode(line), 2);
+        }
     }
 
     // 1. full single-fault sweeps: every request of the initial run x {FB, FA, CB, CA}, then resume
